@@ -409,6 +409,18 @@ class Parser:
             return ("list", el)
         if self.kind() != "id":
             self.err(f"unexpected {s!r} in type")
+        if s == "impl":
+            # impl IntoIterator<Item = T> / impl Iterator<Item = T>: a sequence of T
+            self.eat()
+            tr = self.eat()
+            if tr not in ("IntoIterator", "Iterator") or self.peek() != "<":
+                self.err("`impl Trait` types other than iterators are outside the subset")
+            self.eat("<")
+            self.eat("Item")
+            self.eat("=")
+            el = self.type()
+            self.eat(">")
+            return ("list", el)
         segs = [self.eat()]
         while self.peek() == "::":
             self.eat()
@@ -437,6 +449,8 @@ class Parser:
             self.err(f"type {n} is outside the subset")
         if n == "bool":
             return ("bool",)
+        if n == "BitVec" and not args:
+            return ("list", ("bool",))      # bit_vec::BitVec: a sequence of bools
         if n == "_":
             return ("hole", [None])
         if n == "Option" and len(args) == 1:
@@ -445,6 +459,14 @@ class Parser:
             return ("list", args[0])
         if n in ("HashMap", "BTreeMap") and len(args) == 2:
             return ("map", n, args[0], args[1])
+        if n == "Result" and len(args) == 2:
+            return ("result", args[0], args[1])
+        if n == "Result" and len(args) == 1 and "anyhow" in segs:
+            return ("result", args[0], ("named", "anyhow"))
+        if n == "Box" and len(args) == 1:
+            return args[0]
+        if n == "Signed" and len(args) == 1 and args[0][0] == "named":
+            return ("named", "Signed_" + args[0][1])      # instances of the generic struct are separate table types
         if args:
             self.err(f"generic type {n}<..> is outside the subset")
         return ("named", n)
@@ -578,8 +600,19 @@ class Parser:
                     if name == "await":
                         self.err(".await is outside the subset")
                     if self.peek() == "::":
-                        self.err("turbofish is outside the subset")
-                    if self.peek() == "(":
+                        # turbofish: parsed (so that a target can bind the expression) but never translated
+                        self.eat()
+                        self.eat("<")
+                        tys = [self.type()]
+                        while self.peek() == ",":
+                            self.eat()
+                            tys.append(self.type())
+                        if self.peek() == ">>":
+                            self.t[self.i] = Tok("op", ">", self.t[self.i].line)
+                        else:
+                            self.eat(">")
+                        e = ("mcall", e, name, self.args(), tys)
+                    elif self.peek() == "(":
                         e = ("mcall", e, name, self.args())
                     else:
                         e = ("field", e, name)
@@ -653,6 +686,9 @@ class Parser:
         if k == "num":
             v, bits = parse_int(self.eat())
             return ("lit", v, bits)
+        if k == "str" and s.startswith('"'):
+            self.eat()
+            return ("str", s[1:-1])
         if k in ("str", "chr", "life"):
             self.err(f"literal {s} is outside the subset")
         if s in ("true", "false"):
@@ -758,7 +794,7 @@ class Parser:
                 self.eat()
                 if self.peek() not in ("(", "["):
                     self.err("macro with { } is outside the subset")
-                if name not in ("assert", "assert_eq", "assert_ne", "debug_assert", "unreachable", "panic"):
+                if name not in ("assert", "assert_eq", "assert_ne", "debug_assert", "unreachable", "panic", "ensure", "bail"):
                     self.err(f"macro {name}! is outside the subset")
                 if name in ("unreachable", "panic"):
                     self.i = skip_group(self.t, self.i)
